@@ -22,3 +22,31 @@ package getput
 //@   callsite crypto/sha1.Sum hashes-the-value-or-key-and-salt: $data == r.V || bstr($data) == scat(abytes(r.K), bstr(salt))
 //@   callsite dht/bep44.Verify checks-this-reply: bstr($k) == abytes(r.K) && $salt == salt && r.Seq != nil && $seq == *r.Seq && $bv == r.V && bstr($sig) == abytes(r.Sig)
 //@   callsite select-send:vChan only-values-that-verify: $0.V == r.V && recorded("sha1") == target && ((!$0.Mutable && count("call:crypto/sha1.Sum") == 1) || ($0.Mutable && count("call:crypto/sha1.Sum") == 2 && count("call:dht/bep44.Verify") == 1 && recorded("verified") && r.Seq != nil && $0.Seq == *r.Seq))
+
+// ---- C14: a lookup that was started is stopped on every path ----
+//@ func dht/exts/getput.startGetTraversal
+//@   requires nonnil: s != nil
+//@   option records1 lookup
+//@   modifies *
+//@   ensures the-lookup-started: op != nil && op == recorded("lookup") && !held(op.mu)
+//@   ensures one-lookup-started: count("call:dht/traversal.Start") == 1
+
+//@ func dht/exts/getput.Get
+//@   requires nonnil: s != nil && ctx != nil
+//@   modifies *
+//@   callsite (*dht/traversal.Operation).Stop the-lookup-started-here: $op == recorded("lookup")
+//@   ensures the-lookup-started-is-stopped-on-every-path: count("call:(*dht/traversal.Operation).Stop") == 1
+//@   loop 1
+//@     invariant not-yet-stopped: count("call:(*dht/traversal.Operation).Stop") == 0 && op == recorded("lookup") && op != nil
+
+//@ func dht/exts/getput.Put@seqToPut
+//@   trusted
+//@ func (*dht/k-nearest-nodes.Type).Range
+//@   trusted
+//@ func dht/exts/getput.Put
+//@   requires nonnil: s != nil && ctx != nil && seqToPut != nil
+//@   modifies *
+//@   callsite (*dht/traversal.Operation).Stop the-lookup-started-here: $op == recorded("lookup")
+//@   ensures the-lookup-started-is-stopped-on-every-path: count("call:(*dht/traversal.Operation).Stop") == 1
+//@   loop 1
+//@     invariant not-yet-stopped: count("call:(*dht/traversal.Operation).Stop") == 0 && op == recorded("lookup") && op != nil
